@@ -400,6 +400,18 @@ class _ModuleScope:
         self.path = mod.path
 
 
+class PropertyVal:
+    """property(fget, fset) made by a call in a class body: reading obj.name runs fget on the object."""
+    def __init__(self, fget=None, fset=None, fdel=None):
+        self.fget, self.fset, self.fdel = fget, fset, fdel
+
+    def __repr__(self):
+        return 'property(%r)' % (self.fget,)
+
+    def __deepcopy__(self, memo):
+        return self
+
+
 class Partial:
     """functools.partial(f, *args, **kwargs) as a value"""
     def __init__(self, func, args, kwargs):
@@ -469,7 +481,7 @@ class Interp:
         self.run_init = False           # heap mode: interpret __init__ of instantiated repository classes
         self.lazy_generators = bool(heap and precise_exc)          # generator functions give suspended generator objects (GenObj), resumed on demand
         self._lazy_active = []
-        self.generators = generators or (heap and precise_exc)    # interpret calls of generator helpers eagerly (their value is an iterator over the yields)
+        self.generators = generators or heap    # interpret calls of generator helpers eagerly (their value is an iterator over the yields)
         self.heap = heap                # instantiating a repository class gives a mutable Obj instead of an Inst
         self.precise_exc = precise_exc  # exceptions only where one can occur: failed lookups on known containers, unknown calls
         self._maythrow = 0
@@ -1576,6 +1588,11 @@ class Interp:
         if not bound:
             # a nested function sees the enclosing locals
             if info is None:
+                fsym = s.env.get(call.func.id) if isinstance(call.func, ast.Name) else None
+                if isinstance(fsym, Sym) and isinstance(fsym.attrs.get('closure'), dict) and fsym.attrs.get('node') is node:
+                    for k, v in fsym.attrs['closure'].items():
+                        if k not in local:
+                            cs.env[k] = v
                 cenv = s.env.get('__closure@%s_%d' % (node.name, node.lineno)) if isinstance(node, ast.FunctionDef) else None
                 if isinstance(cenv, dict) and cenv is not s.env:
                     shadow = set(local)
@@ -2161,6 +2178,12 @@ class Interp:
                 v = m.class_const(base.cls, attr)
                 if M.is_unknown(v):
                     v = self._class_level_object(base.cls, attr)
+                    if isinstance(v, PropertyVal):
+                        r_ = self.apply_value(v.fget, [base], {}, s, getattr(n, 'lineno', 0)) if v.fget is not None else None
+                        if r_ is None:
+                            self.imprecise.append('the property %s (made by a property(...) call) could not be read (line %s)' % (attr, getattr(n, 'lineno', '?')))
+                            return TOP
+                        return r_[0]
                     if v is TOP and self.heap:
                         fn_ = m.find_method(base.cls, attr)
                         if fn_ is not None and fn_.cls is not None and attr not in fn_.cls.properties:
@@ -2367,7 +2390,14 @@ class Interp:
         fd = ast.FunctionDef(name='<lambda@%d>' % n.lineno, args=n.args, body=[ast.Return(value=n.body)], decorator_list=[], returns=None, type_comment=None)
         for x in (fd, fd.body[0]):
             ast.copy_location(x, n)
-        return Sym('func:<lambda@%d>' % n.lineno, truthy=True, attrs={'node': fd})
+        params = {a.arg for a in n.args.posonlyargs + n.args.args + n.args.kwonlyargs} | {a.arg for a in (n.args.vararg, n.args.kwarg) if a is not None}
+        closure = {}
+        for x in ast.walk(n.body):
+            if isinstance(x, ast.Name) and x.id not in params and x.id in s.env and not x.id.startswith('__'):
+                v = s.env[x.id]
+                if _plain(v) or isinstance(v, (M.ClassInfo, M.FunctionInfo, M.External)):
+                    closure[x.id] = v           # constants of the defining scope (values that live on the heap are found there when called)
+        return Sym('func:<lambda@%d>' % n.lineno, truthy=True, attrs={'node': fd, 'closure': closure})
 
     def call_value(self, fval, argvalues, s, lineno=0):
         """Apply a function value (nested function / lambda) to values; (result,) when it has exactly one outcome, else None."""
@@ -2561,6 +2591,10 @@ class Interp:
             return (Iter([(k, Iter(g)) for k, g in out]),)
         if (ext in ('staticmethod',) or (isinstance(n.func, ast.Name) and n.func.id == 'staticmethod' and 'staticmethod' not in s.env)) and len(args) == 1 and not kwargs:
             return (args[0],)                  # staticmethod(f) in a class body: reached through an instance it is f itself
+        if (ext in ('property',) or (isinstance(n.func, ast.Name) and n.func.id == 'property' and 'property' not in s.env)) and len(args) <= 3 \
+           and set(kwargs) <= {'fget', 'fset', 'fdel', 'doc'}:
+            vals = list(args) + [None] * (3 - len(args))
+            return (PropertyVal(kwargs.get('fget', vals[0]), kwargs.get('fset', vals[1]), kwargs.get('fdel', vals[2])),)
         if ext in ('collections.deque', 'deque') and len(args) <= 1 and set(kwargs) <= {'maxlen'}:
             items = self._seq_in(args[0], s) if args else []
             if items is None:
@@ -2650,7 +2684,8 @@ class Interp:
                     return (True,)
                 if _plain(v):
                     return (False,)
-        if isinstance(fval, M.FunctionInfo) and (not isinstance(n.func, ast.Name) or n.func.id in s.env) and self.inline_depth > 0:
+        if isinstance(fval, M.FunctionInfo) and (not isinstance(n.func, ast.Name) or n.func.id in s.env or isinstance(self.scope, M.ClassInfo)) \
+           and self.inline_depth > 0:
             r = self._call_function_info(fval, list(args), kwargs, s, n.lineno)
             if r is not None:
                 return r
@@ -4239,8 +4274,24 @@ class Interp:
             self._pending_exc = None
             if isinstance(recv, _re_mod.Pattern) and meth == 'sub' and len(args) == 2 and not _plain(args[0]) and isinstance(args[1], str) \
                and _plain(args[1]) and not kwargs:
-                # compiled pattern, replacement function: decided when nothing matches
-                return args[1] if recv.search(args[1]) is None else TOP
+                # compiled pattern, replacement function: the function of the analysed code is applied to each match
+                if recv.search(str(args[1])) is None:
+                    return args[1]
+
+                class _Abort2(Exception):
+                    pass
+
+                def cb2(mo):
+                    r_ = self.apply_value(args[0], [mo], {}, s, n.lineno)
+                    if r_ is None or not isinstance(r_[0], str) or isinstance(r_[0], M._StringLetters):
+                        raise _Abort2()
+                    return str(r_[0])
+                try:
+                    return recv.sub(cb2, str(args[1]))
+                except _Abort2:
+                    return TOP
+                except Exception:
+                    return TOP
             r = self._builtin_method(recv, meth, args, kwargs)
             if self._pending_exc and self.precise_exc:
                 s.env['__exc'] = self._pending_exc
